@@ -12,7 +12,7 @@ import math
 
 import numpy as np
 
-from mc import core, dw, dw_oracles as orc
+from mc import core, dw, es, dw_oracles as orc
 from mc.core import fail
 from mc.refmodels import hats
 
@@ -118,10 +118,121 @@ def _dw_case(case):
     return out
 
 
+# ------------------------------------------------------------------ extend-split and cell
+def _cell_canon(sa):
+    return tuple(sorted((tuple(float(x) for x in k[0]), tuple(float(x) for x in k[1]), bool(c.active))
+                        for k, c in sa.cell_dict.items()))
+
+
+def _cell_events(sa, s):
+    act = sorted(es._key(o) for o in sa.refinement.get_objects() if o.active)
+    out = []
+    for k in range(1, s + 1):
+        for ch in itertools.combinations(act, k):
+            out.append([[list(c[0]), list(c[1]), None] for c in ch])
+    if len(act) > s:
+        out.append([[list(c[0]), list(c[1]), None] for c in act])
+    return out
+
+
+def _area_case(case):
+    config, history = case["config"], case["history"]
+    strategy = config["strategy"]
+    d = config["d"]
+    a = config.get("a", [0.0] * d)
+    b = config.get("b", [1.0] * d)
+    key = {"strategy": "extend-split" if strategy == "es" else "cell"}
+    subsets, mcomps, mexact = _multilinear(d, a, b)
+    comps = lambda x: [_driver(x)] + mcomps(x)
+    r = es.build(config, history, comps, 1 + len(mexact), strategy=strategy)
+    res = np.asarray(r.result[3], dtype=float)
+    fails = []
+    err = np.abs(res[1:] - np.array(mexact))
+    if not np.max(err) <= TOL * max(1.0, max(abs(e) for e in mexact)):
+        i = int(np.argmax(err))
+        fails.append(fail("multilinear_integral", "prod x_%r: integral %r, exact %r" % (subsets[i], res[1 + i], mexact[i]), key))
+    sa = r.sa
+    out = {"failures": fails, "canon": es.canon(sa) if strategy == "es" else _cell_canon(sa),
+           "nontrivial": len(history) > 0, "outcome": round(float(res[0]), 9)}
+    if case.get("want_events", False):
+        out["events"] = es.events(sa, config) if strategy == "es" else _cell_events(sa, config.get("s", 1))
+    return out
+
+
+# ------------------------------------------------------------------ the library's own estimator, real integrands
+INTEGRANDS = {
+    "peak_left": lambda x: 10 * math.exp(-50 * (x[0] - 0.2) ** 2 - 5 * (x[-1] - 0.5) ** 2),
+    "peak_right": lambda x: 10 * math.exp(-50 * (x[0] - 0.85) ** 2 - 20 * (x[-1] - 0.9) ** 2),
+    "peak_centre": lambda x: 10 * math.exp(-80 * sum((xx - 0.5) ** 2 for xx in x)),
+    "anisotropic": lambda x: 10 * math.exp(-100 * (x[-1] - 0.7) ** 2) + x[0],
+    "discontinuous": lambda x: 5.0 if x[0] + 0.5 * x[-1] < 0.7 else 0.0,
+}
+
+
+def _real_case(case):
+    """one complete adaptive run driven by the default estimator; the basis components are checked at EVERY evaluation"""
+    config = case["config"]
+    strategy = config["strategy"].split("-")[0]
+    d = config["d"]
+    a, b = [0.0] * d, [1.0] * d
+    drv = INTEGRANDS[config["integrand"]]
+    subsets, mcomps, mexact = _multilinear(d, a, b)
+    fails = []
+    if strategy == "dw":
+        from sparseSpACE.ErrorCalculator import ErrorCalculatorSingleDimVolumeGuided
+        key = {"strategy": "dimension-wise", "estimator": "default"}
+        if config.get("modified_basis"):
+            lin = [i for i, S in enumerate(subsets) if len(S) <= 1]
+            comps = lambda x: [drv(x)] + [mcomps(x)[i] for i in lin]
+            exact = [mexact[i] for i in lin]
+            names = [subsets[i] for i in lin]
+        else:
+            B = hats.sparse_basis(d, config["lmin"], config["lmax"], config["boundary"], a, b)
+            comps = lambda x: [drv(x)] + [hats.ev(c, x) for c in B]
+            exact = [hats.integral(c) for c in B]
+            names = B
+        r = dw.build(config, [], comps, 1 + len(exact), estimator=ErrorCalculatorSingleDimVolumeGuided(), perform=False)
+        trace = []
+        orig = r.sa.evaluate_operation
+
+        def wrapper():
+            out = orig()
+            trace.append(np.array(r.op.get_result(), dtype=float).copy())
+            return out
+        r.sa.evaluate_operation = wrapper
+        r.result = r.sa.performSpatiallyAdaptiv(config["lmin"], config["lmax"], r.eo, tol=0.0,
+                                                max_evaluations=config["max_evaluations"], print_output=False)
+        canon = dw.canon(r.sa)
+        rotated = _tree_rotated(r.sa)
+        key["tree_rotated"] = rotated
+    else:
+        key = {"strategy": "extend-split" if strategy == "es" else "cell", "estimator": "default"}
+        comps = lambda x: [drv(x)] + mcomps(x)
+        exact, names = mexact, subsets
+        r = es.build_real(config, comps, 1 + len(exact), strategy, config["max_evaluations"])
+        trace = r.trace
+        canon = es.canon(r.sa) if strategy == "es" else _cell_canon(r.sa)
+    for k, res in enumerate(trace):
+        err = np.abs(res[1:] - np.array(exact))
+        if not np.max(err) <= TOL * max(1.0, max(abs(e) for e in exact)):
+            i = int(np.argmax(err))
+            fails.append(fail("exactness_default_estimator", "evaluation %d: component %r integral %r, exact %r" % (k, names[i], res[1 + i], exact[i]), key))
+            break
+    final = np.asarray(r.result[3], dtype=float)
+    if trace and not np.array_equal(final, trace[-1]):
+        fails.append(fail("returned_result_is_last_evaluation", "returned %r, last evaluation %r" % (final[:2], trace[-1][:2]), key))
+    return {"failures": fails, "canon": (config["integrand"], canon), "nontrivial": len(trace) > 1,
+            "outcome": (len(trace), round(float(final[0]), 9)), "evals": len(trace)}
+
+
 def run_case(case):
+    if case["config"].get("strategy", "dw").endswith("-real"):
+        return _real_case(case)
     strategy = case["config"].get("strategy", "dw")
     if strategy == "dw":
         return _dw_case(case)
+    if strategy in ("es", "cell"):
+        return _area_case(case)
     raise core.HarnessError("unknown strategy %r" % strategy)
 
 
@@ -134,7 +245,32 @@ def configs(tier):
         if a is not None:
             c["a"], c["b"] = a, b
         out.append((c, D))
+    def esc(d, lmax, version, nref, D, s, automatic=False, single=False, a=None, b=None):
+        c = {"strategy": "es", "d": d, "lmin": 1, "lmax": lmax, "version": version, "nref": nref, "automatic": automatic,
+             "single_dim": single, "s": s, "special": d < 3}
+        if a is not None:
+            c["a"], c["b"] = a, b
+        out.append((c, D))
+
+    def cellc(d, l, D, s, a=None, b=None):
+        c = {"strategy": "cell", "d": d, "lmin": l, "lmax": l, "s": s}
+        if a is not None:
+            c["a"], c["b"] = a, b
+        out.append((c, D))
     if tier == "quick":
+        for version in (0, 1, 2):
+            esc(2, 2, version, 1, 3, 1)
+            esc(2, 2, version, 2, 2, 2)
+        esc(2, 3, 0, 1, 2, 1)
+        esc(3, 2, 0, 1, 2, 1)
+        esc(2, 2, 0, 1, 2, 1, automatic=True)
+        esc(2, 2, 0, 1, 2, 1, single=True)
+        esc(2, 2, 0, 1, 2, 1, a=[-1.0, 2.0], b=[3.0, 4.0])
+        cellc(2, 1, 3, 1)
+        cellc(2, 1, 2, 2)
+        cellc(2, 2, 2, 1)
+        cellc(3, 1, 2, 1)
+        cellc(2, 1, 2, 2, a=[-1.0, 2.0], b=[3.0, 4.0])
         for version in (6, 2, 3, 7, 8):
             dwc(2, 1, 2, version, False, True, 2, 2 if version == 6 else 1)
         dwc(2, 1, 2, 6, False, False, 2, 1)
@@ -145,6 +281,21 @@ def configs(tier):
         dwc(2, 1, 2, 6, False, True, 2, 1, a=[-1.0, 2.0], b=[3.0, 4.0])
         dwc(3, 1, 2, 6, False, True, 1, 1)
     else:
+        for version in (0, 1, 2):
+            for nref in (1, 2):
+                esc(2, 2, version, nref, 3, 2)
+                esc(2, 3, version, nref, 3, 1)
+                esc(3, 2, version, nref, 2, 1)
+            esc(2, 2, version, 1, 3, 1, automatic=True)
+            esc(2, 2, version, 1, 3, 1, single=True)
+            esc(2, 2, version, 1, 2, 1, automatic=True, single=True)
+            esc(2, 2, version, 1, 3, 1, a=[-1.0, 2.0], b=[3.0, 4.0])
+        cellc(2, 1, 3, 2)
+        cellc(2, 1, 4, 1)
+        cellc(2, 2, 2, 2)
+        cellc(3, 1, 2, 1)
+        cellc(3, 2, 1, 1)
+        cellc(2, 1, 3, 1, a=[-1.0, 2.0], b=[3.0, 4.0])
         for version in (6, 2, 3, 7, 8):
             for bnd in (True, False):
                 dwc(2, 1, 2, version, False, bnd, 3, 2 if bnd else 1)
@@ -160,6 +311,40 @@ def configs(tier):
     return out
 
 
+def real_cases(tier):
+    cases = []
+    names = sorted(INTEGRANDS)
+    for integrand in names:
+        for (lmin, lmax) in ((1, 2), (1, 3)) if tier != "quick" else ((1, 2),):
+            for version in ((6, 2, 3, 7, 8) if tier != "quick" else (6, 3)):
+                for bnd, mod in ((True, False), (False, False), (False, True)):
+                    cases.append({"config": {"strategy": "dw-real", "d": 2, "lmin": lmin, "lmax": lmax, "version": version,
+                                             "rebalancing": False, "boundary": bnd, "modified_basis": mod,
+                                             "integrand": integrand, "max_evaluations": 150 if tier == "quick" else 400}})
+            cases.append({"config": {"strategy": "dw-real", "d": 2, "lmin": lmin, "lmax": lmax, "version": 6, "rebalancing": True,
+                                     "boundary": True, "modified_basis": False, "integrand": integrand,
+                                     "max_evaluations": 150 if tier == "quick" else 400}})
+        for version in (0, 1, 2):
+            for nref in (1, 2):
+                for auto, single in ((False, False), (True, False), (False, True)):
+                    if tier == "quick" and (nref == 2 and (auto or single)):
+                        continue
+                    cases.append({"config": {"strategy": "es-real", "d": 2, "lmin": 1, "lmax": 2, "version": version, "nref": nref,
+                                             "automatic": auto, "single_dim": single, "integrand": integrand,
+                                             "max_evaluations": 200 if tier == "quick" else 600}})
+        cases.append({"config": {"strategy": "cell-real", "d": 2, "lmin": 1, "lmax": 1, "integrand": integrand,
+                                 "max_evaluations": 100 if tier == "quick" else 400}})
+        cases.append({"config": {"strategy": "cell-real", "d": 2, "lmin": 2, "lmax": 2, "integrand": integrand,
+                                 "max_evaluations": 100 if tier == "quick" else 400}})
+        if tier != "quick":
+            cases.append({"config": {"strategy": "dw-real", "d": 3, "lmin": 1, "lmax": 2, "version": 6, "rebalancing": False,
+                                     "boundary": True, "modified_basis": False, "integrand": integrand, "max_evaluations": 300}})
+            cases.append({"config": {"strategy": "es-real", "d": 3, "lmin": 1, "lmax": 2, "version": 0, "nref": 1,
+                                     "automatic": False, "single_dim": False, "integrand": integrand, "max_evaluations": 800}})
+            cases.append({"config": {"strategy": "cell-real", "d": 3, "lmin": 1, "lmax": 1, "integrand": integrand, "max_evaluations": 300}})
+    return cases
+
+
 def main(ctx):
     ctx.determinism_probe({"config": {"strategy": "dw", "d": 2, "lmin": 1, "lmax": 2, "version": 6, "rebalancing": False,
                                       "boundary": True, "modified_basis": False, "s": 1},
@@ -167,6 +352,11 @@ def main(ctx):
     for config, D in configs(ctx.tier):
         tag = "_".join("%s%s" % (k[:3], v) for k, v in config.items() if k not in ("a", "b")) + ("_box" if "a" in config else "") + "_D%d" % D
         ctx.bounds[tag] = core.bfs(ctx, config, D, tag=tag)
+    cases = real_cases(ctx.tier)
+    for case, res in zip(cases, ctx.map(cases, chunksize=1)):
+        ctx.absorb(case, res, state_key=("real", res["canon"]), group="default_estimator_" + case["config"]["strategy"])
+    ctx.add_sample(cases[0])
+    ctx.bounds["default_estimator_runs"] = {"runs": len(cases), "integrands": sorted(INTEGRANDS)}
     return ctx.finish(
         rule="state = refinement structure reached by a history of refinement decisions (scripted estimator, real loop); the "
              "integrand carries a basis of the claimed exactness space as extra output components; events = subsets of <= s "
